@@ -270,28 +270,32 @@ func runReal(prog []*cbref.Op, vals *cbref.Values, b *cryptobyte.Builder, probe 
 // mirrored reads
 // ---------------------------------------------------------------------------
 
-func readItems(s *cryptobyte.String, items []cbref.Item) string {
+// readItems performs the mirrored reads. Every destination is pre-loaded with a non-zero
+// value of a different length (a reader must assign, not merge). With alt set the byte
+// strings are consumed through the other reader (Skip instead of ReadBytes, ReadBytes
+// instead of CopyBytes).
+func readItems(s *cryptobyte.String, items []cbref.Item, alt bool) string {
 	for i := range items {
 		it := &items[i]
 		switch it.Kind {
 		case cbref.ItInt:
-			var got uint64
+			got := ^uint64(0)
 			ok := false
 			switch it.Width {
 			case 1:
-				var v uint8
+				v := uint8(0xFF)
 				ok = s.ReadUint8(&v)
 				got = uint64(v)
 			case 2:
-				var v uint16
+				v := uint16(0xFFFF)
 				ok = s.ReadUint16(&v)
 				got = uint64(v)
 			case 3:
-				var v uint32
+				v := uint32(0xFFFFFFFF)
 				ok = s.ReadUint24(&v)
 				got = uint64(v)
 			case 4:
-				var v uint32
+				v := uint32(0xFFFFFFFF)
 				ok = s.ReadUint32(&v)
 				got = uint64(v)
 			case 6:
@@ -309,7 +313,17 @@ func readItems(s *cryptobyte.String, items []cbref.Item) string {
 			if len(it.Data) == 0 && *s == nil {
 				continue // reading zero bytes from a nil String reports failure; not part of the property
 			}
-			var out []byte
+			if alt {
+				before := *s
+				if !s.Skip(len(it.Data)) {
+					return "Skip failed"
+				}
+				if len(before)-len(*s) != len(it.Data) || !bytes.Equal(before[:len(it.Data)], it.Data) {
+					return "Skip advanced over different bytes"
+				}
+				continue
+			}
+			out := []byte{9, 9, 9, 9, 9}
 			if !s.ReadBytes(&out, len(it.Data)) {
 				return "ReadBytes failed"
 			}
@@ -317,9 +331,22 @@ func readItems(s *cryptobyte.String, items []cbref.Item) string {
 				return "ReadBytes returned different bytes"
 			}
 		case cbref.ItRaw:
-			out := make([]byte, len(it.Data))
-			if len(out) == 0 && *s == nil {
+			if len(it.Data) == 0 && *s == nil {
 				continue
+			}
+			if alt {
+				out := []byte{7, 7, 7}
+				if !s.ReadBytes(&out, len(it.Data)) {
+					return "ReadBytes failed"
+				}
+				if !bytes.Equal(out, it.Data) {
+					return "ReadBytes returned different bytes"
+				}
+				continue
+			}
+			out := make([]byte, len(it.Data))
+			for j := range out {
+				out[j] = 0xEE
 			}
 			if !s.CopyBytes(out) {
 				return "CopyBytes failed"
@@ -328,7 +355,7 @@ func readItems(s *cryptobyte.String, items []cbref.Item) string {
 				return "CopyBytes returned different bytes"
 			}
 		case cbref.ItLP:
-			var child cryptobyte.String
+			child := cryptobyte.String{1, 2, 3, 4, 5, 6, 7}
 			ok := false
 			switch it.Width {
 			case 1:
@@ -338,13 +365,13 @@ func readItems(s *cryptobyte.String, items []cbref.Item) string {
 			case 3:
 				ok = s.ReadUint24LengthPrefixed(&child)
 			case 4:
-				var n uint32
+				n := uint32(0xFFFFFFFF)
 				ok = s.ReadUint32(&n) && s.ReadBytes((*[]byte)(&child), int(n))
 			}
 			if !ok {
 				return fmt.Sprintf("ReadUint%dLengthPrefixed failed", it.Width*8)
 			}
-			if m := readItems(&child, it.Kids); m != "" {
+			if m := readItems(&child, it.Kids, alt); m != "" {
 				return fmt.Sprintf("in %d-bit prefixed child: %s", it.Width*8, m)
 			}
 			if !child.Empty() {
@@ -352,7 +379,7 @@ func readItems(s *cryptobyte.String, items []cbref.Item) string {
 			}
 		case cbref.ItASN1:
 			cp := *s
-			var el, child cryptobyte.String
+			el, child := cryptobyte.String{0x30, 0x01, 0x00}, cryptobyte.String{0xFF, 0xFF}
 			if !cp.ReadASN1Element(&el, asn1.Tag(it.Tag)) {
 				return "ReadASN1Element failed"
 			}
@@ -362,7 +389,7 @@ func readItems(s *cryptobyte.String, items []cbref.Item) string {
 			if len(cp) != len(*s) || !bytes.HasSuffix(el, child) || len(el) != len(child)+1+len(cbref.DERLength(len(child))) {
 				return "ReadASN1Element and ReadASN1 disagree"
 			}
-			if m := readItems(&child, it.Kids); m != "" {
+			if m := readItems(&child, it.Kids, alt); m != "" {
 				return "in ASN.1 child: " + m
 			}
 			if !child.Empty() {
@@ -445,7 +472,7 @@ func (k *checker) compareGrow(mode string, prog []*cbref.Op, m *cbref.Result, r 
 		}
 		s := cryptobyte.String(r.out)
 		var msg string
-		if p, v := protect(func() { msg = readItems(&s, m.Items) }); p {
+		if p, v := protect(func() { msg = readItems(&s, m.Items, false) }); p {
 			return bad("mirrored String reads panic: " + fmt.Sprint(v))
 		}
 		if msg != "" {
@@ -453,6 +480,25 @@ func (k *checker) compareGrow(mode string, prog []*cbref.Op, m *cbref.Result, r 
 		}
 		if !s.Empty() {
 			return bad("mirrored String reads leave bytes over")
+		}
+		// the same reads through the alternative byte-string readers
+		s = cryptobyte.String(r.out)
+		if p, v := protect(func() { msg = readItems(&s, m.Items, true) }); p {
+			return bad("mirrored String reads (Skip/ReadBytes variant) panic: " + fmt.Sprint(v))
+		}
+		if msg != "" || !s.Empty() {
+			return bad("mirrored String reads (Skip/ReadBytes variant): " + msg)
+		}
+		// one byte short: the same reads consume len(out) bytes, so one of them must report
+		// failure - and none may panic
+		if len(r.out) > 0 {
+			s = cryptobyte.String(r.out[:len(r.out)-1])
+			if p, v := protect(func() { msg = readItems(&s, m.Items, mode != "zero") }); p {
+				return bad("mirrored String reads on the output cut by one byte panic: " + fmt.Sprint(v))
+			}
+			if msg == "" {
+				return bad("mirrored String reads succeed on the output cut by one byte")
+			}
 		}
 	case cbref.OutError:
 		if r.kind != "error" {
